@@ -105,6 +105,20 @@ CLAIMS.update({
     },
 })
 
+CLAIMS.update({
+    "C16": {
+        "text": "PARTIAL SCOPE, SMALL (instruction-header level only). Proves that read_instr of each of the nine instruction formats, "
+                "given ARBITRARY header and argument bytes with the size field at values below, at and above the header size (and the "
+                "sign-extension value 0xFFFF), returns Ok or Err and never panics - no `size - header` underflow, no failed assert, no "
+                "capacity overflow from a sign-extended size - and that decode_label never panics on an arbitrary 32-bit jump argument. "
+                "These obligations found three reader panics and one multiplication overflow on the pinned tree, now fixed.",
+        "note": "NOT decided - the bulk of the property: file-level readers, decompilation passes, image extraction, EOF/io::Error paths, "
+                "termination and memory. A change that makes any of those crash is not detected. Size-field values are enumerated "
+                "(concrete) because a symbolic size makes the EOF path reachable, which CBMC cannot get through.",
+        "design_ref": "DESIGN.md section 5, C16",
+    },
+})
+
 NOT_APPLICABLE = {
     "C01": "whole-pipeline relation between decompile and compile across the LALR parser, the formatter and five file formats; no function in the chain has a contract-expressible spec and neither back end can execute it. Its codec ingredients are claimed separately (C03 C13 C14 C15 C17).",
     "C02": "needs an operational semantics of source and target and a simulation proof over 1400 lines of visitor/closure code over CompilerContext (HashMaps, AST); outside Verus' subset and CBMC's reach. The shared operator semantics is C11.",
